@@ -33,8 +33,8 @@ Consumers of each modelled producer (each is exercised by the streams named in b
     `Legend.segment_text`, `color_range`, `segment_colors`, `__repr__`, `to_dict`, `duplicate` [lhist: op/ol/dp/tp];
   * label format (`decimal_count`, `include_larger_smaller`, `ordinal_dictionary`): `segment_text`,
     `category_names` [legend, lhist].
-Not exercised: `color_map_2d`, `title_location*`, `*_2d` screen geometry, `colors_by_set`, `Legend.from_dict`
-flag override, data-type defaults of `GraphicContainer` (unit descriptions).
+Not exercised: `title_location*`, `colors_by_set`, `Legend.from_dict` flag override, titles / units of
+`GraphicContainer` (round 4 added `color_map_2d`, `segment_text_location_2d` and the data-type defaults).
 
 History streams: `lhist` (one parameters object + the legend built from it: assignments to either
 object incl. refused ones, rebuilds with other data, GraphicContainer builds, duplicates, dict round
@@ -45,6 +45,41 @@ reads change nothing, no leak between the parameters and the legend, the live ob
 in one go from its public state, the statement's clauses on the live object, last accepted bounds /
 count / domain / names in force).  `process_order`: a slice of all oracle ops in 3-4 fresh interpreters,
 each in another order (rare classes first in one).
+
+Round 4 (override gaps, aliasing / one-shot iterables, conventions, numeric edges, input shapes, rare
+branches).  Added:
+  * `gtype` (correspondence + oracle): GraphicContainer WITH a data type - every built-in ordinal type,
+    GenericType and DataTypeBase.from_dict types whose unit description is written in ascending /
+    descending / shuffled key order (contiguous, sparse, empty, one key), types without categories, a
+    bare unit, Point2D corners; bounds default / a key / not a key / beyond the keys; count default /
+    given; user dictionary and categorised parameters (kept).  Lean: Model/C15Graphic.lean, driver op
+    `gtype`, theorems C15_typed_*.  Consumers: legend min/max/count, segment_text, value_colors, dims,
+    to_dict/from_dict of the container.
+  * container shapes: every sequence argument (values, colours, categorised domain, names; constructor
+    and setters; histories too) is fed as list / tuple / generator / iter / map object (`shape` of a
+    case; the model always takes the list) + oracle op `shapes` (answers equal for all shapes).
+    `ColorRange.domain` gets one-shot iterables in the oracle only (finding C15-colorrange-domain-one-shot).
+  * ordinal dictionaries are written in shuffled key order everywhere.
+  * oracle op `extra` on legends: edits of returned containers, a second legend from the same / from
+    default parameters, colour-range copies and dictionary forms, categorised-vs-plain sibling, mesh
+    extents (from_grid argument convention), scene label positions step / start, screen-space label
+    positions (`segment_text_location_2d`, 4 branches) and `color_map_2d` (4 branches; '%'/'px' text
+    dimensions, several screen sizes).
+Branches of the anchored functions (each reached by a counted stratum `branch:*` in evidence):
+  ColorRange.color: below / above / interval-blend / interval-segment / fall-through (single boundary);
+  _cal_color: ZeroDivisionError (duplicated stops, zero width) / blend; domain setter: default (0, 1) /
+  2-value re-map / multi-stop / segmented; colors setter: default / Color objects / re-check of a set domain
+  (refused -> restored; crhist);  Legend.__init__: values tuple / other iterable, parameters None / given,
+  min / max from data, single-value count, horizontal default width;  segment_text: categorised (given /
+  generated names) / numeric / numeric with marks / ordinal hit / ordinal miss;  segment_numbers:
+  ZeroDivisionError (1 segment) / step;  color_range + segment_colors: categorised / plain;  segment_length,
+  _segment_point_scene_2d, _segment_mesh_2d: vertical / horizontal x discrete / gradient;
+  segment_text_location_2d, color_map_2d: the same four;  GraphicContainer: Point2D / Point3D corners,
+  no data type / unit only / data type without categories / ordinal applied / user dictionary kept /
+  categorised kept, min / max from keys, count aligned / given, index ValueError (finding), min > max
+  refused, empty dictionary IndexError, height vertical / horizontal each with its zero fallback.
+  Not reachable through the public API: `_convert_colors` .NET branches (`col.Red`), `except IndexError`
+  of graphic.py:93 (never raised).
 """
 import math
 from fractions import Fraction
@@ -55,7 +90,8 @@ from harness.core import err_name, run_oracle_cases
 PROP = 'C15'
 PROOF_MODULES = ['Ladybug.Props.C15']
 GREP_MODULES = ['Ladybug.Py', 'Ladybug.Model.Color', 'Ladybug.Model.Legend', 'Ladybug.Model.C15Obj',
-                'Ladybug.Proofs.C15Lemmas', 'Ladybug.Proofs.C15Obj', 'Ladybug.Drv.C15', 'Ladybug.DrvCore']
+                'Ladybug.Model.C15Graphic', 'Ladybug.Proofs.C15Lemmas', 'Ladybug.Proofs.C15Obj',
+                'Ladybug.Proofs.C15Graphic', 'Ladybug.Drv.C15', 'Ladybug.DrvCore']
 RULE = ('correspondence: colour lists of 1-20 random colours (repeated / extreme / non-monotone channels, '
         'default set), domains {2 values | one per colour | fewer | single | zero-width | unsorted | empty | '
         'too many}, continuous and segmented, values at every stop, dyadic fractions between stops, just '
@@ -67,7 +103,10 @@ RULE = ('correspondence: colour lists of 1-20 random colours (repeated / extreme
         'worlds (pow2 / tens / nines colour and segment counts, zero bounds, single values, refused '
         'assignments of every kind, rebuilds, duplicates, dict round trips, repeated reads) compared step by '
         'step with the Lean state machines; a slice of all oracle ops re-run in 3-4 fresh interpreters in '
-        'different orders; oracle: the statement of C15 on the real classes; a case is non-trivial when the '
+        'different orders; round 4: typed graphic containers (all built-in ordinal data types, generic / '
+        'from_dict types with dictionaries in any key order), every sequence argument as list / tuple / '
+        'generator / iter / map, shuffled ordinal dictionaries, aliasing / second-object / screen-geometry / '
+        'colour-map clauses; oracle: the statement of C15 on the real classes; a case is non-trivial when the '
         'constructor accepts it; distinct = distinct (op, request line)')
 TRUSTED_BASE = [
     'modelled, not verified: ladybug_geometry Mesh2D.from_grid face/vertex counts and its colour-count '
@@ -76,8 +115,9 @@ TRUSTED_BASE = [
     '(compared through every legend without explicit colours)',
     'float vs exact arithmetic: theorems are over Rat; on random floats the colour channels were equal '
     'except at counted rounding ties (coverage.input_distribution near_tie_rounding)',
-    'graphic.py: GraphicContainer is modelled without a data type (no unit-description dictionary); '
-    'ladybug_geometry points/planes are not modelled',
+    'graphic.py: the data type of a GraphicContainer is modelled by its unit description only (titles / '
+    'units are not); ladybug_geometry points/planes are not modelled; container types of arguments are not '
+    'modelled (the model takes lists; every shape is fed to the real code and compared with it)',
     'histories: history-refines-fresh is proved for plain parameters only; categorised parameters, the live '
     "legend's own parameters and ColorRange objects are compared step by step (lhist / crhist) and judged by "
     'the history oracle; label-position coordinates and segment dimensions are not observed in histories '
@@ -150,10 +190,39 @@ def legend_line(c):
 # the real code behind the same protocol
 
 
-def make_range(c):
+SHAPES = ['list', 'tuple', 'gen', 'iter', 'map']
+
+
+def shaped(seq, shape):
+    """The same data in another container type (round 4, kind f): list, tuple, generator, `iter`,
+    `map` object.  Empty / None arguments keep their list form (their meaning is 'default')."""
+    if seq is None:
+        return None
+    seq = list(seq)
+    if not seq or shape in (None, 'list'):
+        return seq
+    if shape == 'tuple':
+        return tuple(seq)
+    if shape == 'gen':
+        return (x for x in seq)
+    if shape == 'iter':
+        return iter(seq)
+    if shape == 'map':
+        return map(lambda x: x, seq)
+    raise ValueError('unknown shape %r' % (shape,))
+
+
+def dom_shape(shape):
+    """`ColorRange.domain` is fed lists and tuples only by the correspondence: a one-shot iterable is
+    silently read as an empty domain there (finding C15-colorrange-domain-one-shot, oracle op `shapes`)."""
+    return 'tuple' if shape in ('tuple', 'iter') else 'list'
+
+
+def make_range(c, shape=None):
     from ladybug.color import Color, ColorRange
-    cols = [Color(*x) for x in c['cols']] if c['cols'] else None
-    return ColorRange(cols, list(c['dom']) if c['dom'] else None, c['cont'])
+    shape = shape if shape is not None else c.get('shape')
+    cols = shaped([Color(*x) for x in c['cols']], shape) if c['cols'] else None
+    return ColorRange(cols, shaped(c['dom'], dom_shape(shape)) if c['dom'] else None, c['cont'])
 
 
 def impl_color(c):
@@ -170,11 +239,12 @@ def impl_color(c):
     return 'ok %s | %s' % (rats(cr.domain), ' ; '.join(outs))
 
 
-def make_par(c):
+def make_par(c, shape=None):
     from ladybug.color import Color
     from ladybug.legend import LegendParameters, LegendParametersCategorized
+    shape = shape if shape is not None else c.get('shape')
     if c['kind'] == 'plain':
-        cols = None if c['cols'] is None else [Color(*x) for x in c['cols']]
+        cols = None if c['cols'] is None else shaped([Color(*x) for x in c['cols']], shape)
         lp = LegendParameters(c['min'], c['max'], c['count'], cols)
         lp.continuous_legend = c['cl']
         lp.vertical = c['vert']
@@ -183,7 +253,8 @@ def make_par(c):
         if c['ord'] is not None:
             lp.ordinal_dictionary = dict(c['ord'])
     else:
-        lp = LegendParametersCategorized(list(c['dom']), [Color(*x) for x in c['cols']], c['names'])
+        lp = LegendParametersCategorized(shaped(c['dom'], shape), shaped([Color(*x) for x in c['cols']], shape),
+                                         shaped(c['names'], shape))
         lp.continuous_colors = c['cc']
         lp.continuous_legend = c['cl']
         lp.vertical = c['vert']
@@ -208,9 +279,16 @@ def _sec(f):
 def impl_legend(c):
     from ladybug.legend import Legend
     try:
-        lg = Legend(list(c['vals']), make_par(c))
+        lg = Legend(shaped(c['vals'], c.get('shape')), make_par(c))
     except Exception as e:
         return 'err:' + err_name(e)
+    return legend_secs(lg)
+
+
+def legend_secs(lg, relabel=None):
+    """The nine sections of the `legend` / `gtype` answers, read from a live legend (`relabel`: texts
+    of a data type that hold blanks -> their one-token form of the line protocol)."""
+    relabel = relabel or {}
     lp = lg.legend_parameters
 
     def mesh():
@@ -227,7 +305,7 @@ def impl_legend(c):
         _sec(lambda: rats(lg.segment_numbers)),
         _sec(lambda: show_colors(lg.segment_colors)),
         _sec(lambda: show_colors(lg.value_colors)),
-        _sec(lambda: ';'.join(lg.segment_text)),
+        _sec(lambda: ';'.join(relabel.get(t, t) for t in lg.segment_text)),
         _sec(lambda: ' '.join('%s,%s' % (rat(p.x), rat(p.y)) for p in lg._segment_point_scene_2d())),
         _sec(lambda: str(lg.segment_length)),
         _sec(mesh),
@@ -244,8 +322,8 @@ def impl_graphic(c, box):
     from ladybug.graphic import GraphicContainer
     from ladybug_geometry.geometry3d.pointvector import Point3D
     try:
-        gc = GraphicContainer(list(c['vals']), Point3D(box[0], box[1], 0), Point3D(box[2], box[3], 0),
-                              make_par(c))
+        gc = GraphicContainer(shaped(c['vals'], c.get('shape')), Point3D(box[0], box[1], 0),
+                              Point3D(box[2], box[3], 0), make_par(c))
     except Exception as e:
         return 'err:' + err_name(e)
     lp = gc.legend_parameters
@@ -411,24 +489,27 @@ def step_exact(c):
     return _few_bits(c['th'])            # default width of a horizontal legend = text_height * 5
 
 
-def compare_legend(ctx, cases):
-    """`legend` op: exact cases bit for bit, the others with the float rule."""
+def compare_legend(ctx, cases, line_fn=None, impl_fn=None, op='legend'):
+    """`legend` op (and `gtype`, same answer layout): exact cases bit for bit, the others with the
+    float rule."""
     drv = ctx.driver()
-    lines = [legend_line(c) for c in cases]
+    line_fn = line_fn or legend_line
+    impl_fn = impl_fn or impl_legend
+    lines = [line_fn(c) for c in cases]
     outs = drv.run(lines)
     follow = []
     for c, line, mo in zip(cases, lines, outs):
-        io = impl_legend(c)
+        io = impl_fn(c)
         ctx.compared += 1
-        ctx.count('op:legend_' + c['kind'] + ('_exact' if c['exact'] else '_float'))
-        ctx.case(('legend', line), nontrivial=not io.startswith('err:'))
+        ctx.count('op:%s_' % op + c['kind'] + ('_exact' if c['exact'] else '_float'))
+        ctx.case((op, line), nontrivial=not io.startswith('err:'))
         if io.startswith('err:'):
             ctx.count('err_results')
         if mo == io:
             continue
         ms, is_ = mo.split(' | '), io.split(' | ')
         if len(ms) != 9 or len(is_) != 9:
-            ctx.disagree('legend', {'case': c, 'line': line}, mo, io)
+            ctx.disagree(op, {'case': c, 'line': line}, mo, io)
             continue
         bad = None
         pend = []
@@ -467,7 +548,7 @@ def compare_legend(ctx, cases):
             bad = name
             break
         if bad:
-            ctx.disagree('legend', {'case': c, 'line': line, 'part': bad}, mo, io)
+            ctx.disagree(op, {'case': c, 'line': line, 'part': bad}, mo, io)
         elif pend:
             follow.append((c, line, mo, io, ms, pend))
     # near-tie classification of colour differences on the float stream
@@ -495,7 +576,7 @@ def compare_legend(ctx, cases):
                     ctx.count('near_tie_rounding')
                     ctx.subclaim('float_stream_colour_equal_except_rounding_ties', True)
                 else:
-                    ctx.disagree('legend', {'case': c, 'line': line, 'part': name, 'index': i}, mo, io)
+                    ctx.disagree(op, {'case': c, 'line': line, 'part': name, 'index': i}, mo, io)
                     break
 
 
@@ -585,7 +666,9 @@ def gen_color_exact(ctx, rng):
         rng.shuffle(shown)                              # the setter sorts
     ctx.count('color_exact:%s:%s' % (kind, 'cont' if cont else 'seg'))
     ctx.count('color_exact:ncolors:%d' % (ncol if cols else 0))
-    return {'cont': cont, 'cols': cols, 'dom': shown, 'vals': vals}
+    shape = rng.choice(SHAPES)
+    ctx.count('shape:range:' + shape)
+    return {'cont': cont, 'cols': cols, 'dom': shown, 'vals': vals, 'shape': shape}
 
 
 def rand_float(rng):
@@ -628,7 +711,7 @@ def gen_color_float(ctx, rng):
         vals.append(d0 + (d1 - d0) * (i + 0.5) / max(1, ncol - 1))   # near the midpoints (ties)
     vals += list(dom) + [d0 - width * 0.01, d1 + width * 0.01, d0 - 10 * width, d1 + 10 * width]
     ctx.count('color_float:%s:%s' % (kind, 'cont' if cont else 'seg'))
-    return {'cont': cont, 'cols': cols, 'dom': dom, 'vals': vals}
+    return {'cont': cont, 'cols': cols, 'dom': dom, 'vals': vals, 'shape': rng.choice(SHAPES)}
 
 
 NAME_POOL = ['low', 'ok', 'high', 'Cold', 'Cool', 'Neutral', 'Warm', 'Hot', 'A', 'B', 'c-1', 'x_y', '10%']
@@ -648,7 +731,7 @@ def gen_legend_defaults(ctx, rng, exact, cell=None):
     the data.  The single-segment default depends on the *resolved* min/max, not on the data."""
     data, bounds, given_count, cat = cell if cell is not None else rng.choice(DEFAULT_GRID)
     c = {'kind': 'cat' if cat else 'plain', 'cl': rng.random() < 0.3, 'vert': rng.random() < 0.6,
-         'dc': 2, 'sh': None, 'sw': None, 'th': None}
+         'dc': 2, 'sh': None, 'sw': None, 'th': None, 'shape': rng.choice(SHAPES)}
     ctx.count('legend:defaults:%s:%s:%s:%s' % (data, bounds, 'count' if given_count else 'default',
                                                 'cat' if cat else 'plain'))
     base = float(rng.randrange(-40, 40)) * rng.choice([1, 0.5, 0.25])
@@ -712,7 +795,8 @@ def gen_legend(ctx, rng, exact, rare_known=False):
     if rng.random() < 0.2:
         return gen_legend_defaults(ctx, rng, exact)
     cat = rng.random() < 0.3
-    c = {'exact': exact, 'kind': 'cat' if cat else 'plain'}
+    c = {'exact': exact, 'kind': 'cat' if cat else 'plain', 'shape': rng.choice(SHAPES)}
+    ctx.count('shape:legend:' + c['shape'])
     c['cl'] = rng.random() < 0.4
     c['vert'] = rng.random() < 0.55
     c['dc'] = rng.choice([0, 1, 2, 2, 2, 3, 5])
@@ -821,6 +905,7 @@ def gen_legend(ctx, rng, exact, rare_known=False):
     if rng.random() < 0.25:
         keys = sorted(set(rng.randrange(-4, 12) for _ in range(rng.randrange(0, 7))))
         c['ord'] = [(k, rng.choice(NAME_POOL)) for k in keys]
+        rng.shuffle(c['ord'])                            # dictionaries are not written in key order
         if exact and rng.random() < 0.6 and count:
             # integer segment numbers so that the dictionary is actually hit
             c['min'], c['max'] = -1, -1 + (count - 1)
@@ -898,6 +983,10 @@ def correspondence(ctx):
                 box = (4.0, 4.0, 0.0, 0.0)                                            # inverted box
             gcases.append((c, box))
     compare_graphic(ctx, gcases)
+    # round 4: graphic containers with a data type (ordinal defaults from the unit description)
+    tcases = [_gtype_full(inp) for inp in GTYPE_CORPUS]
+    tcases += [gen_gtype(ctx, rng) for _ in range(ctx.n(1500, 12000))]
+    compare_gtype(ctx, tcases)
     # histories on one object: the model's state machines against the real objects, step by step
     hist = [_full_par_case(inp) for op, inp in CORPUS if op == 'lhistory']
     hist += [gen_lhist(ctx, rng, rare_first=(i % 7 == 0)) for i in range(ctx.n(700, 7000))]
@@ -1207,6 +1296,12 @@ def check_case(op, inp):
         return check_crhistory(inp)
     if op == 'process_order':
         return check_process_order(inp)
+    if op == 'gtype':
+        return check_gtype(inp)
+    if op == 'shapes':
+        return check_shapes(inp)
+    if op == 'extra':
+        return check_extra(inp)
     raise ValueError('unknown op ' + op)
 
 
@@ -1300,6 +1395,15 @@ def _oracle_cases(ctx):
             dom.append(dom[0] + (n - 1) * rng.choice([1, 2, 0.5, 10]))
             if not cont and n < 3:
                 continue
+        elif r < 0.67:
+            # numeric edges (kind h): absolute widths 1e-12 .. 1e+16 around 0 / small / large offsets
+            lo = rng.choice([0.0, 0.0, 1.0, -2.0, 2e-9, 1e6, -1e12])
+            k = rng.randrange(-12, 17)
+            width = max(10.0 ** k * rng.choice([1, 2, 5]), abs(lo) * 1e-6)
+            dom = [lo, lo + width]
+            ctx.count('oracle_range:abs_width:1e%+03d' % (3 * (k // 3)))
+            if not cont and n < 3:
+                continue
         else:
             m = n if cont else rng.randrange(1, n)
             dom = sorted(set([lo] + [lo + width * rng.random() for _ in range(m - 1)]))
@@ -1310,6 +1414,7 @@ def _oracle_cases(ctx):
         if rng.random() < 0.2:
             rng.shuffle(dom)
         ctx.count('oracle_range:%s:%d_stops' % ('cont' if cont else 'seg', min(len(dom), 3)))
+        count_branches(ctx, 'range', {'cont': cont, 'dom': dom})
         yield 'range', {'cols': cols, 'dom': dom, 'cont': cont, 'probes': 50 if rng.random() < 0.3 else 12,
                         't': rng.random()}
     for cell in DEFAULT_GRID:
@@ -1328,6 +1433,8 @@ def _oracle_cases(ctx):
             c['ord'] = [list(x) for x in c['ord']]
         yield 'legend', c
     for op, inp in _history_cases(ctx, 2500 if big else 380):
+        yield op, inp
+    for op, inp in _round4_cases(ctx):
         yield op, inp
 
 
@@ -1356,6 +1463,13 @@ def _order_pool(ctx):
         k += 1
     for op, inp in _history_cases(ctx, 160 if big else 60):
         pool.append((op, inp))
+    for inp in GTYPE_CORPUS[:-1]:
+        pool.append(('gtype', inp))
+    for _ in range(120 if big else 40):
+        c = gen_gtype(ctx, rng)
+        pool.append(('gtype', _jsonable({k: v for k, v in c.items() if k not in ('exact', '_ud')})))
+    for _ in range(60 if big else 25):
+        pool.append(('extra', _jsonable(gen_legend(ctx, rng, True))))
     return pool
 
 
@@ -1498,18 +1612,18 @@ def _full_par_case(c):
     return c
 
 
-def apply_field(lp, f, v):
+def apply_field(lp, f, v, shape=None):
     """`lp.<attribute> = value` on the real object (raises what the setter raises)."""
     from ladybug.color import Color
     if f == 'bad':
         setattr(lp, FIELD_ATTR[v], BAD_VALUE[v])
         return
     if f == 'cols' and v is not None:
-        v = [Color(*x) for x in v]
+        v = shaped([Color(*x) for x in v], shape)
     elif f == 'ord' and v is not None:
         v = dict((int(k), t) for k, t in v)
     elif f in ('dom', 'names') and v is not None:
-        v = list(v)
+        v = shaped(v, shape)
     setattr(lp, FIELD_ATTR[f], v)
 
 
@@ -1567,6 +1681,7 @@ class Session(object):
 
     def __init__(self, c):
         self.par = make_par(c)
+        self.shape = c.get('shape')
         self.live = None
         self.holder = None           # the GraphicContainer that owns the live legend, if any
 
@@ -1576,23 +1691,23 @@ class Session(object):
         k = o[0]
         try:
             if k == 'sp':
-                apply_field(self.par, o[1], o[2])
+                apply_field(self.par, o[1], o[2], self.shape)
                 return 'ok'
             if k in ('sl', 'ol', 'dl', 'tl') and self.live is None:
                 return 'nolegend'
             if k == 'sl':
-                apply_field(self.live.legend_parameters, o[1], o[2])
+                apply_field(self.live.legend_parameters, o[1], o[2], self.shape)
                 return 'ok'
             if k == 'b':
-                self.live = Legend(list(o[1]), self.par)
+                self.live = Legend(shaped(o[1], self.shape), self.par)
                 self.holder = None
                 return 'ok'
             if k == 'g':
                 from ladybug.graphic import GraphicContainer
                 from ladybug_geometry.geometry3d.pointvector import Point3D
                 box = o[1]
-                gc = GraphicContainer(list(o[2]), Point3D(box[0], box[1], 0), Point3D(box[2], box[3], 0),
-                                      self.par)
+                gc = GraphicContainer(shaped(o[2], self.shape), Point3D(box[0], box[1], 0),
+                                      Point3D(box[2], box[3], 0), self.par)
                 self.live, self.holder = gc.legend, gc
                 return 'ok'
             if k == 'ol':
@@ -1631,16 +1746,17 @@ def impl_lhist(c):
 class RangeSession(object):
     def __init__(self, c):
         self.cr = make_range(c)
+        self.shape = c.get('shape')
 
     def step(self, o):
         from ladybug.color import Color
         k = o[0]
         try:
             if k == 'c':
-                self.cr.colors = [Color(*x) for x in o[1]]
+                self.cr.colors = shaped([Color(*x) for x in o[1]], self.shape)
                 return 'ok'
             if k == 'd':
-                self.cr.domain = list(o[1])
+                self.cr.domain = shaped(o[1], dom_shape(self.shape))
                 return 'ok'
             if k == 'u':
                 self.cr = self.cr.duplicate()
@@ -1751,7 +1867,8 @@ def gen_lhist(ctx, rng, rare_first=False):
     cat = rng.random() < 0.3
     ops = []
     c = {'kind': 'cat' if cat else 'plain', 'cl': rng.random() < 0.35, 'vert': rng.random() < 0.6,
-         'dc': rng.choice([0, 1, 2, 2, 3]), 'sh': None, 'sw': None, 'th': None}
+         'dc': rng.choice([0, 1, 2, 2, 3]), 'sh': None, 'sw': None, 'th': None, 'shape': rng.choice(SHAPES)}
+    ctx.count('shape:lhist:' + c['shape'])
     if rng.random() < 0.25:
         c['sh'] = rng.choice([0.5, 1, 2, 0.25])
     if cat:
@@ -1844,6 +1961,7 @@ def gen_lhist(ctx, rng, rare_first=False):
         if rng.random() < 0.15:
             keys = sorted(set(rng.randrange(-4, 12) for _ in range(rng.randrange(0, 6))))
             c['ord'] = [(k, rng.choice(NAME_POOL)) for k in keys]
+            rng.shuffle(c['ord'])
         sh = {'min': mn, 'max': mx}
         lsh = None
 
@@ -1895,7 +2013,8 @@ def gen_lhist(ctx, rng, rare_first=False):
             if r < 0.8:
                 if rng.random() < 0.4:
                     return [t, 'ord', None]
-                keys = sorted(set(rng.randrange(-4, 12) for _ in range(rng.randrange(0, 6))))
+                keys = list(set(rng.randrange(-4, 12) for _ in range(rng.randrange(0, 6))))
+                rng.shuffle(keys)
                 return [t, 'ord', [(k, rng.choice(NAME_POOL)) for k in keys]]
             if r < 0.85:
                 ctx.count('lhist:refused:plain_no_attribute')
@@ -2102,7 +2221,8 @@ def gen_crhist(ctx, rng, rare_first=False):
     while stops is None and tries < 5 and not rare_first:
         d, stops = newdom(n_eff)
         tries += 1
-    c = {'cont': cont, 'cols': cols, 'dom': d, 'ops': []}
+    c = {'cont': cont, 'cols': cols, 'dom': d, 'ops': [], 'shape': rng.choice(SHAPES)}
+    ctx.count('shape:crhist:' + c['shape'])
     ops = c['ops']
     if stops is None:
         ctx.count('crhist:refused:constructor')
@@ -2575,7 +2695,732 @@ def check_process_order(inp):
     return {'required': f['required'], 'observed': f['observed'], 'sig': sig}
 
 
-LEVEL_TEXT = ('Machine-checked Lean 4 theorems (31) over an executable Rat model of ColorRange, Legend and '
+# ---------------------------------------------------------------------------------------------
+# round 4: typed graphic containers (data-type defaults), container shapes, aliasing, screen geometry,
+# conventions between legend.py / color.py / graphic.py / ladybug_geometry
+
+BUILTIN_KEYS = {
+    'ThermalComfort': [1, 0], 'PredictedMeanVote': [-3, -2, -1, 0, 1, 2, 3], 'ThermalCondition': [-1, 0, 1],
+    'ThermalConditionFivePoint': [-2, -1, 0, 1, 2], 'ThermalConditionSevenPoint': [-3, -2, -1, 0, 1, 2, 3],
+    'ThermalConditionNinePoint': list(range(-4, 5)), 'ThermalConditionElevenPoint': list(range(-5, 6)),
+    'UTCICategory': list(range(10)), 'CoreTemperatureCategory': [-2, -1, 0, 1, 2],
+    'DiscomfortReason': [-2, -1, 0, 1, 2]}
+BUILTIN_ORDINAL = sorted(BUILTIN_KEYS)
+
+
+def tokn(t):
+    return str(t).replace(' ', '_')
+
+
+def make_dtype(spec):
+    """(data_type, unit) of a typed-container case: ['none'] | ['unit', 'C'] | ['plain', 'Temperature'] |
+    ['builtin', class name] | ['generic', [[key, text], ...]] | ['fromdict', [[key, text], ...]]
+    (the pairs in dictionary insertion order)."""
+    kind = spec[0]
+    if kind == 'none':
+        return None, None
+    if kind == 'unit':
+        return None, spec[1]
+    if kind in ('builtin', 'plain'):
+        import ladybug.datatype as dtm
+        return dtm.TYPESDICT[spec[1]](), None
+    pairs = {}
+    for k, t in spec[1]:
+        pairs[int(k)] = t
+    if kind == 'generic':
+        from ladybug.datatype.generic import GenericType
+        return GenericType('Cases', 'case', unit_descr=pairs), None
+    from ladybug.datatype.base import DataTypeBase
+    return DataTypeBase.from_dict({'name': 'Cases', 'data_type': 'GenericType', 'base_unit': 'case',
+                                   'unit_descr': pairs}), None
+
+
+def descr_pairs(spec):
+    """The unit description of the case's data type as [(key, text)] in iteration order, or None."""
+    dt, _ = make_dtype(spec)
+    d = None if dt is None else dt.unit_descr
+    return None if d is None else [(k, d[k]) for k in d]
+
+
+def gtype_line(c):
+    ud = c.get('_ud')
+    u = 'none' if ud is None else enc_ord([(k, tokn(t)) for k, t in ud])
+    return 'gtype %s %s %s' % (rats(c['box']), u, legend_line(c)[len('legend '):])
+
+
+def impl_gtype(c):
+    from ladybug.graphic import GraphicContainer
+    from ladybug_geometry.geometry3d.pointvector import Point3D
+    from ladybug_geometry.geometry2d.pointvector import Point2D
+    box = c['box']
+    try:
+        dt, unit = make_dtype(c['dt'])
+        if c.get('p2d'):                     # branch: Point2D corners are converted
+            p0, p1 = Point2D(box[0], box[1]), Point2D(box[2], box[3])
+        else:
+            p0, p1 = Point3D(box[0], box[1], 0), Point3D(box[2], box[3], 0)
+        gc = GraphicContainer(shaped(c['vals'], c.get('shape')), p0, p1, make_par(c), dt, unit)
+    except Exception as e:
+        return 'err:' + err_name(e)
+    return legend_secs(gc.legend, dict((t, tokn(t)) for _, t in (c.get('_ud') or [])))
+
+
+def _pow2(q):
+    q = Fraction(q)
+    return q.denominator & (q.denominator - 1) == 0 and q.denominator <= 1024
+
+
+def _pow2_frac(q):
+    q = Fraction(q)
+    return q > 0 and q.numerator & (q.numerator - 1) == 0 and q.denominator & (q.denominator - 1) == 0
+
+
+def typed_expect(c, keys):
+    """What the statement expects of a typed container, in plain numbers: (min, max, count | None) or
+    the name of the expected refusal.  `keys`: the dictionary keys (None: no dictionary applies)."""
+    vals = c['vals']
+    mn = c['min'] if c['min'] is not None else min(vals)
+    mx = c['max'] if c['max'] is not None else max(vals)
+    if mn > mx:
+        return 'refused'
+    if keys is None:
+        return (mn, mx, c['count'] if c['count'] is not None else (1 if mn == mx else 11))
+    if not keys and (c['min'] is None or c['max'] is None):
+        return 'refused'
+    if c['min'] is None:
+        mn = min(keys)
+    if c['max'] is None:
+        mx = max(keys)
+    if mn > mx:
+        return 'refused'
+    if c['count'] is not None:
+        return (mn, mx, c['count'])
+    if mn in keys and mx in keys:
+        return (mn, mx, len([k for k in keys if mn <= k <= mx]))
+    return 'bound_not_a_key'
+
+
+def gen_gtype(ctx, rng):
+    """One typed graphic container: every built-in ordinal data type, generic types and
+    `DataTypeBase.from_dict` types with dictionaries in any insertion order (ascending, descending,
+    shuffled; contiguous or sparse keys; empty; one key), data types without categories, a bare unit,
+    no data type; bounds default / a key / not a key / beyond the keys; count default / given; a
+    user-given ordinal dictionary and categorised parameters (the data type must then be ignored)."""
+    r = rng.random()
+    if r < 0.4:
+        name = rng.choice(BUILTIN_ORDINAL)
+        spec, keys = ['builtin', name], list(BUILTIN_KEYS[name])
+        ctx.count('gtype:type:builtin:' + name)
+    elif r < 0.88:
+        n = rng.choice([0, 1, 2, 2, 3, 3, 4, 5, 7])
+        if rng.random() < 0.7:
+            st = rng.randrange(-4, 4)
+            keys = list(range(st, st + n))
+        else:
+            keys = rng.sample(range(-4, 10), n)
+        order = rng.choice(['asc', 'desc', 'shuffled', 'shuffled'])
+        keys.sort(reverse=(order == 'desc'))
+        if order == 'shuffled':
+            rng.shuffle(keys)
+        ctx.count('gtype:dict_order:' + ('asc' if keys == sorted(keys) else
+                                         'desc' if keys == sorted(keys, reverse=True) else 'shuffled'))
+        ctx.count('gtype:dict_size:%d' % min(n, 4))
+        kind = 'generic' if r < 0.72 else 'fromdict'
+        spec = [kind, [[k, rng.choice(NAME_POOL) + str(k)] for k in keys]]
+        ctx.count('gtype:type:' + kind)
+    elif r < 0.93:
+        spec, keys = ['plain', rng.choice(['Temperature', 'RelativeHumidity', 'Illuminance'])], None
+        ctx.count('branch:gtype:datatype_without_categories')
+    elif r < 0.97:
+        spec, keys = ['unit', 'C'], None
+        ctx.count('branch:gtype:unit_only')
+    else:
+        spec, keys = ['none'], None
+        ctx.count('branch:gtype:no_datatype')
+    c = {'kind': 'plain', 'dt': spec, 'cl': rng.random() < 0.35, 'vert': rng.random() < 0.6, 'dc': 2,
+         'ils': rng.random() < 0.15, 'sh': None, 'sw': None, 'th': None, 'ord': None, 'names': None,
+         'cc': None, 'shape': rng.choice(SHAPES), 'p2d': rng.random() < 0.15}
+    if rng.random() < 0.2:
+        c['sh'] = rng.choice([0.5, 1, 2])
+    c['box'] = rng.choice([(0.0, 0.0, 8.0, 8.0), (0.0, 0.0, 16.0, 4.0), (-4.0, 2.0, 4.0, 34.0),
+                           (0.0, 0.0, 0.0, 8.0), (0.0, 0.0, 8.0, 0.0)])
+    ctx.count('branch:gtype:height:%s%s' % ('vertical' if c['vert'] else 'horizontal',
+                                            '_fallback' if 0.0 in (c['box'][2] - c['box'][0],
+                                                                   c['box'][3] - c['box'][1]) else ''))
+    pool = sorted(keys) if keys else [0, 1, 2, 3]
+    if rng.random() < 0.1:
+        # categorised parameters: the data type must leave them alone
+        dom = sorted(set(float(rng.choice(pool)) + rng.choice([0, 0.5]) for _ in range(rng.choice([1, 2, 3]))))
+        c.update({'kind': 'cat', 'dom': dom, 'cols': gen_colors(rng, len(dom) + 1), 'ils': None, 'cc': rng.random() < 0.3,
+                  'vals': [float(rng.choice(pool)) for _ in range(rng.randrange(1, 6))], 'exact': True,
+                  'min': None, 'max': None, 'count': None})
+        ctx.count('branch:gtype:categorised_kept')
+        return c
+    ncol = rng.choice([2, 3, 5, 9, 17, None])
+    c['cols'] = None if ncol is None else gen_colors(rng, ncol)
+    mode = rng.choice(['neither'] * 9 + ['min', 'min', 'max', 'max', 'both', 'both', 'both', 'nonkey', 'nonkey', 'beyond'])
+    num = (lambda k: float(k) if rng.random() < 0.5 else int(k))
+    c['min'] = c['max'] = None
+    if mode in ('min', 'both'):
+        c['min'] = num(rng.choice(pool[:max(1, len(pool) - 1)]))
+    if mode in ('max', 'both'):
+        c['max'] = num(rng.choice([k for k in pool if c['min'] is None or k >= c['min']] or [pool[-1]]))
+    if mode == 'nonkey':
+        if rng.random() < 0.5:
+            c['min'] = pool[0] + rng.choice([0.5, -1, 0.25])
+        else:
+            c['max'] = pool[-1] + rng.choice([-0.5, 1, 3])
+    if mode == 'beyond':
+        c['min'] = pool[-1] + 1                      # above the largest key: min > max must be refused
+    c['count'] = None if rng.random() < 0.75 else rng.choice([1, 2, 3, 5])
+    nv = rng.randrange(1, 7)
+    vals = [num(rng.choice(pool)) for _ in range(nv)]
+    if rng.random() < 0.2:
+        vals.append(rng.choice(pool) + 0.5)
+    if rng.random() < 0.15:
+        vals = [vals[0]] * rng.randrange(1, 4)       # single-value data (count default -> 1 -> re-aligned)
+        ctx.count('gtype:single_value_data')
+    if mode == 'beyond':
+        vals.append(c['min'] + 2)                    # so that the legend alone is accepted
+    c['vals'] = vals
+    if rng.random() < 0.1:
+        ks = list(set(rng.randrange(-3, 6) for _ in range(rng.randrange(1, 5))))
+        rng.shuffle(ks)
+        c['ord'] = [(k, 'own' + str(k)) for k in ks]
+        ctx.count('branch:gtype:user_dictionary_kept')
+    applies = keys is not None and c['ord'] is None
+    e = typed_expect(c, keys if applies else None)
+    ctx.count('gtype:bounds:' + mode)
+    if applies:
+        ctx.count('branch:gtype:ordinal:' + (e if isinstance(e, str) else
+                                              'count_aligned' if c['count'] is None else 'count_given'))
+        if c['min'] is None:
+            ctx.count('branch:gtype:min_from_keys')
+        if c['max'] is None:
+            ctx.count('branch:gtype:max_from_keys')
+    c['exact'] = True
+    if not isinstance(e, str):
+        mn, mx, n = e
+        w = Fraction(mx) - Fraction(mn)
+        # exact float arithmetic: the colour interval (max - min) / (colours - 1) is a power of two (exact
+        # blend factors) and the segment step is dyadic
+        c['exact'] = ncol is not None and (w == 0 or (_pow2_frac(w / (ncol - 1)) and
+                                                      (n == 1 or _pow2(w / (n - 1)))))
+    return c
+
+
+def compare_gtype(ctx, cases):
+    for c in cases:
+        try:
+            c['_ud'] = descr_pairs(c['dt'])
+        except Exception:
+            c['_ud'] = None
+    compare_legend(ctx, cases, line_fn=gtype_line, impl_fn=impl_gtype, op='gtype')
+
+
+GTYPE_CORPUS = [
+    # the built-in dictionary that is not written in key order, all defaults / one bound given
+    {'kind': 'plain', 'dt': ['builtin', 'ThermalComfort'], 'vals': [0, 1, 1, 0], 'cl': False, 'vert': True, 'dc': 2},
+    {'kind': 'plain', 'dt': ['builtin', 'ThermalComfort'], 'vals': [0, 1, 1, 0], 'min': 0, 'cl': False, 'vert': True, 'dc': 2},
+    {'kind': 'plain', 'dt': ['builtin', 'ThermalComfort'], 'vals': [1, 1], 'max': 1, 'cl': True, 'vert': False, 'dc': 2},
+    {'kind': 'plain', 'dt': ['generic', [[0, 'Low'], [2, 'High'], [1, 'Medium']]], 'vals': [0, 1, 2, 2], 'cl': False,
+     'vert': True, 'dc': 2},
+    {'kind': 'plain', 'dt': ['fromdict', [[3, 'c'], [-1, 'a'], [1, 'b']]], 'vals': [-1, 1, 3], 'cl': False, 'vert': False,
+     'dc': 2, 'cols': [[0, 0, 255], [0, 255, 0], [255, 0, 0]]},
+    {'kind': 'plain', 'dt': ['builtin', 'PredictedMeanVote'], 'vals': [-0.5, 0, 2.5], 'min': -1, 'max': 1, 'cl': False,
+     'vert': True, 'dc': 2},
+    {'kind': 'plain', 'dt': ['builtin', 'UTCICategory'], 'vals': [5, 5, 5], 'cl': False, 'vert': True, 'dc': 2},
+    {'kind': 'plain', 'dt': ['plain', 'Temperature'], 'vals': [18.5, 30], 'cl': False, 'vert': True, 'dc': 2},
+    {'kind': 'plain', 'dt': ['builtin', 'ThermalCondition'], 'vals': [-1, 0, 1], 'cl': False, 'vert': True, 'dc': 2,
+     'ord': [[1, 'x'], [0, 'y']]},
+    # finding C15-graphic-ordinal-bound-not-a-key
+    {'kind': 'plain', 'dt': ['builtin', 'ThermalComfort'], 'vals': [0, 1], 'min': 0.5, 'cl': False, 'vert': True, 'dc': 2},
+]
+
+
+def _gtype_full(inp):
+    c = _full_legend_case(inp)
+    c.setdefault('box', (0.0, 0.0, 8.0, 8.0))
+    c.setdefault('dt', ['none'])
+    c['exact'] = False
+    return c
+
+
+def check_gtype(inp):
+    """Statement of C15 for a GraphicContainer with a data type: the defaults derive from the data
+    type's categories (least / greatest key, one segment per category between the bounds, the
+    categories' names as labels) whatever order the dictionary was written in; a user-given
+    dictionary and categorised parameters are kept; without categories the container's legend is
+    the legend of the values; the general legend clauses hold; the data type is left as it was."""
+    from ladybug.legend import Legend
+    from ladybug.graphic import GraphicContainer
+    from ladybug_geometry.geometry3d.pointvector import Point3D
+    c = _gtype_full(inp)
+    vals = list(c['vals'])
+    sig = {'kind': c['kind'], 'type': c['dt'][0]}
+
+    def fail(clause, req, obs, **kw):
+        return {'required': req, 'observed': obs, 'sig': dict(sig, clause=clause, **kw)}
+
+    try:
+        dt, unit = make_dtype(c['dt'])
+        before = None if dt is None or dt.unit_descr is None else list(dt.unit_descr.items())
+    except Exception as e:
+        return fail('datatype_raises', 'a data type', 'raises %s: %s' % (type(e).__name__, e))
+    try:
+        lp = make_par(c)
+        alone = Legend(list(vals), lp)
+    except AssertionError:
+        return None                                   # rejected legend (checked by the correspondence)
+    keys = None if before is None else [k for k, _ in before]
+    applies = keys is not None and c['kind'] == 'plain' and c['ord'] is None
+    e = typed_expect(c, keys if applies else None) if c['kind'] == 'plain' else None
+    box = c['box']
+    flat = (box[2] - box[0]) == 0 and (box[3] - box[1]) == 0 and c['sh'] is None
+    try:
+        gc = GraphicContainer(shaped(vals, c.get('shape')), Point3D(box[0], box[1], 0),
+                              Point3D(box[2], box[3], 0), lp, dt, unit)
+    except Exception as ex:
+        if flat or e == 'refused':
+            return None
+        if e == 'bound_not_a_key':
+            return fail('typed_bound_not_a_key', 'a legend whose given bound is kept (segment count not aligned)',
+                        'raises %s: %s' % (type(ex).__name__, ex), error=type(ex).__name__)
+        return fail('typed_construct', 'a graphic container', 'raises %s: %s' % (type(ex).__name__, ex),
+                    error=type(ex).__name__)
+    lg, par = gc.legend, gc.legend_parameters
+    if before is not None and list(dt.unit_descr.items()) != before:
+        return fail('datatype_dictionary_changed', before, list(dt.unit_descr.items()))
+    if e == 'refused':
+        return fail('typed_bounds_order', 'refused: min above max', (par.min, par.max))
+    exp = {}
+    if applies and not isinstance(e, str):
+        mn, mx, n = e
+        exp = {'min': mn, 'max': mx}
+        if par.min != mn:
+            return fail('typed_default_min' if c['min'] is None else 'typed_given_min', mn, par.min,
+                        order='sorted' if keys == sorted(keys) else 'unsorted')
+        if par.max != mx:
+            return fail('typed_default_max' if c['max'] is None else 'typed_given_max', mx, par.max,
+                        order='sorted' if keys == sorted(keys) else 'unsorted')
+        if par.segment_count != n:
+            return fail('typed_segment_count', n, par.segment_count, given=c['count'] is not None,
+                        order='sorted' if keys == sorted(keys) else 'unsorted')
+        od = par.ordinal_dictionary
+        if od is None or dict(od) != dict(before):
+            return fail('typed_dictionary', dict(before), od)
+        nums, text = list(lg.segment_numbers), list(lg.segment_text)
+        want = [dict(before).get(x, '') if float(x).is_integer() else '' for x in nums]
+        if text != want:
+            return fail('typed_labels', want, text)
+        inside = [k for k in sorted(keys) if mn <= k <= mx]
+        if c['count'] is None and inside == list(range(int(mn), int(mx) + 1)) and \
+                text != [dict(before)[k] for k in inside]:
+            return fail('typed_labels_all', [dict(before)[k] for k in inside], text)
+    elif not applies:
+        # nothing to derive from the data type: the container's legend is the legend of the values
+        a, b = obs_live(lg).split(' | '), obs_live(alone).split(' | ')
+        if a != b:
+            part = [i for i, (x, y) in enumerate(zip(a, b)) if x != y]
+            return fail('untyped_equals_legend', b, a, part=part[0] if part else -1)
+        if c['kind'] == 'plain' and c['ord'] is not None and dict(par.ordinal_dictionary) != dict(
+                (int(k), t) for k, t in c['ord']):
+            return fail('user_dictionary_kept', c['ord'], par.ordinal_dictionary)
+    try:
+        res = _live_clauses(lg, exp)
+    except Exception as ex:
+        return fail('legend_raises', 'a legend that can be read', 'raises %s: %s' % (type(ex).__name__, ex),
+                    error=type(ex).__name__)
+    if res:
+        return fail(res[0], res[1], res[2])
+    if [_rgb(x) for x in gc.value_colors] != [_rgb(x) for x in lg.value_colors]:
+        return fail('graphic_value_colors', [_rgb(x) for x in lg.value_colors], [_rgb(x) for x in gc.value_colors])
+    if len(gc) != len(vals) or list(gc.values) != vals:
+        return fail('graphic_values', vals, list(gc.values))
+    # dictionary form (consumer of the same producers)
+    try:
+        again = GraphicContainer.from_dict(gc.to_dict())
+        a, b = obs_live(again.legend).split(' | '), obs_live(lg).split(' | ')
+    except Exception as ex:
+        return fail('graphic_dict_raises', 'a container from its dictionary', 'raises %s: %s' % (type(ex).__name__, ex),
+                    error=type(ex).__name__)
+    a[0], b[0] = ' '.join(a[0].split()[:4]), ' '.join(b[0].split()[:4])
+    if a != b and not (c['kind'] == 'cat' and c['names'] is None):
+        part = [i for i, (x, y) in enumerate(zip(a, b)) if x != y]
+        return fail('graphic_dict_differs', b, a, part=part[0] if part else -1)
+    return None
+
+
+# -- container shapes (kind f): every sequence argument as list, tuple, generator, iter, map
+
+
+def _range_snapshot(cr, probe):
+    out = [tuple(cr.domain), [_rgb(x) for x in cr.colors]]
+    for v in probe:
+        try:
+            out.append(_rgb(cr.color(v)))
+        except Exception as e:
+            out.append('raises ' + type(e).__name__)
+    return out
+
+
+def check_shapes(inp):
+    """The answer of every entry point that takes a sequence does not depend on the container type
+    of the argument (list, tuple, generator, `iter`, `map` object)."""
+    from ladybug.color import Color, ColorRange
+    from ladybug.legend import Legend
+    from ladybug.graphic import GraphicContainer
+    from ladybug_geometry.geometry3d.pointvector import Point3D
+    c = inp['case']
+
+    def fail(entry, shape, req, obs, **kw):
+        return {'required': req, 'observed': obs,
+                'sig': dict(clause='shape_dependent', entry=entry, shape=shape,
+                            shape_class='one_shot' if shape in ('gen', 'iter', 'map') else 'sequence', **kw)}
+
+    if inp['what'] == 'range':
+        cols = [Color(*x) for x in c['cols']]
+        dom = list(c['dom'])
+        lo, hi = min(dom), max(dom)
+        probe = [lo, hi, (lo + hi) / 2, lo + (hi - lo) * 0.37, lo - 1.0, hi + 1.0]
+        try:
+            ref = _range_snapshot(ColorRange(list(cols), list(dom), c['cont']), probe)
+        except Exception:
+            return None
+        known = None
+        for shape in SHAPES[1:]:
+            for entry in ('ColorRange.colors', 'ColorRange.domain', 'ColorRange.domain.setter',
+                          'ColorRange.colors.setter'):
+                if 'domain' in entry and shape in ('gen', 'iter', 'map') and not inp.get('domain_one_shot'):
+                    continue                     # finding C15-colorrange-domain-one-shot: a few cases per run
+                try:
+                    if entry == 'ColorRange.colors':
+                        cr = ColorRange(shaped(cols, shape), list(dom), c['cont'])
+                    elif entry == 'ColorRange.domain':
+                        cr = ColorRange(list(cols), shaped(dom, shape), c['cont'])
+                    elif entry == 'ColorRange.domain.setter':
+                        cr = ColorRange(list(cols), list(reversed(dom)), c['cont'])
+                        cr.domain = shaped(dom, shape)
+                    else:
+                        cr = ColorRange(list(reversed(cols)), list(dom), c['cont'])
+                        cr.colors = shaped(cols, shape)
+                    got = _range_snapshot(cr, probe)
+                except Exception as e:
+                    return fail(entry, shape, ref, 'raises %s' % type(e).__name__, symptom='raises')
+                if got != ref:
+                    f = fail(entry.replace('.setter', '') if 'domain' in entry else entry, shape, ref, got,
+                             symptom='domain_empty' if got[0] == () else 'differs')
+                    if 'domain' in entry and got[0] == () and shape in ('gen', 'iter', 'map'):
+                        known = known or f       # the recorded finding must not hide the other entries
+                        continue
+                    return f
+        return known
+    c = _full_legend_case(c)
+    vals = list(c['vals'])
+    try:
+        ref = obs_live(Legend(list(vals), make_par(c, 'list')))
+    except AssertionError:
+        return None
+    p0, p1 = Point3D(0, 0, 0), Point3D(8, 8, 0)
+    for shape in SHAPES[1:]:
+        try:
+            got = obs_live(Legend(shaped(vals, shape), make_par(c, shape)))
+        except Exception as e:
+            return fail('Legend/LegendParameters', shape, ref, 'raises %s: %s' % (type(e).__name__, e))
+        if got != ref:
+            return fail('Legend/LegendParameters', shape, ref, got)
+        try:
+            got = [_rgb(x) for x in GraphicContainer(shaped(vals, shape), p0, p1, make_par(c, shape)).value_colors]
+            want = [_rgb(x) for x in GraphicContainer(list(vals), p0, p1, make_par(c, 'list')).value_colors]
+        except Exception as e:
+            return fail('GraphicContainer.values', shape, 'value colours', 'raises %s: %s' % (type(e).__name__, e))
+        if got != want:
+            return fail('GraphicContainer.values', shape, want, got)
+        # the setters
+        try:
+            lp = make_par(c, 'list')
+            if c['kind'] == 'cat':
+                apply_field(lp, 'dom', sorted(c['dom']), shape)
+                apply_field(lp, 'cols', c['cols'], shape)
+                if c['names'] is not None:
+                    apply_field(lp, 'names', c['names'], shape)
+            elif c['cols'] is not None:
+                apply_field(lp, 'cols', c['cols'], shape)
+            got = obs_live(Legend(shaped(vals, shape), lp))
+        except Exception as e:
+            return fail('LegendParameters.setters', shape, ref, 'raises %s: %s' % (type(e).__name__, e))
+        if got != ref:
+            return fail('LegendParameters.setters', shape, ref, got)
+    return None
+
+
+# -- aliasing, screen geometry, conventions on one legend
+
+
+def _px(s, total):
+    return int(s[:-2]) if s.endswith('px') else int(float(s[:-1]) * total * 0.01)
+
+
+def check_extra(inp):
+    """Further clauses on one legend: (f) results are not shared - editing a returned list / dictionary
+    or building a second legend from the same parameters (or from no parameters) does not change the
+    first legend's answers; (g) the mesh spans `cells x segment dimension` in the direction of the
+    legend and one segment dimension across, in the legend's own corner; (j) every branch of the
+    screen-space label positions and of the colour map has one entry / one band per segment;
+    the dictionary forms of the colour range colour alike; (e) a categorised legend with continuous
+    colours over two boundaries colours like the plain legend over the same bounds."""
+    import json
+    from ladybug.color import Color, ColorRange
+    from ladybug.legend import Legend, LegendParameters, LegendParametersCategorized
+    c = _full_legend_case(inp)
+    vals = list(c['vals'])
+    sig = {'kind': c['kind'], 'vertical': bool(c['vert']), 'gradient': bool(c['cl'])}
+
+    def fail(clause, req, obs, **kw):
+        return {'required': req, 'observed': obs, 'sig': dict(sig, clause=clause, **kw)}
+
+    try:
+        lp = make_par(c)
+        px = inp.get('px') or {}
+        for k, v in px.items():
+            setattr(lp, k, v)
+        lg = Legend(list(vals), lp)
+    except AssertionError:
+        return None
+    par = lg.legend_parameters
+    n = par.segment_count
+    cells = n - 1 if par.continuous_legend else n
+    try:
+        first = obs_live(lg)
+        pfirst = obs_par(lp)
+        # (f) edits of returned containers
+        t = lg.segment_text
+        keep = list(t)
+        if isinstance(t, list) and t:
+            t[0] = 'edited'
+            t.append('more')
+        if list(lg.segment_text) != keep:
+            return fail('alias_segment_text', keep, list(lg.segment_text))
+        d = lg.to_dict()
+        dp = d['legend_parameters']
+        for key in ('colors', 'domain', 'category_names'):
+            if isinstance(dp.get(key), list):
+                del dp[key][:]
+        if isinstance(d.get('values'), list):
+            del d['values'][:]
+        if obs_live(lg) != first:
+            return fail('alias_to_dict', first, obs_live(lg))
+        # (f) a second legend from the same parameters, with other data and edited afterwards
+        other = Legend([min(vals)] * 2 + [max(vals), min(vals)], lp)
+        if not isinstance(other.legend_parameters, LegendParametersCategorized):
+            other.legend_parameters.segment_count = n + 3
+            other.legend_parameters.colors = [Color(1, 2, 3), Color(4, 5, 6)]
+            other.legend_parameters.decimal_count = 4
+        other.legend_parameters.vertical = not par.vertical
+        other.legend_parameters.continuous_legend = not par.continuous_legend
+        if obs_live(lg) != first:
+            return fail('second_legend_changes_first', first, obs_live(lg))
+        if obs_par(lp) != pfirst:
+            return fail('second_legend_changes_parameters', pfirst, obs_par(lp))
+        # (f) default parameters are not shared between legends
+        a = Legend(list(vals))
+        a_first = obs_live(a)
+        b = Legend([v + 100 for v in vals] + [min(vals) - 50])
+        b.legend_parameters.segment_count = 3
+        b.legend_parameters.colors = [Color(9, 9, 9), Color(8, 8, 8)]
+        b.legend_parameters.vertical = False
+        if obs_live(a) != a_first:
+            return fail('default_parameters_shared', a_first, obs_live(a))
+        if LegendParameters().segment_count != 11 or len(LegendParameters().colors) != 10:
+            return fail('default_parameters_polluted', (11, 10), (LegendParameters().segment_count,
+                                                                  len(LegendParameters().colors)))
+        # dictionary form of the colour range
+        cr = lg.color_range
+        cr2 = ColorRange.from_dict(json.loads(json.dumps(cr.to_dict())))
+        cr3 = cr.duplicate()
+        for v in vals + list(lg.segment_numbers):
+            if not (_rgb(cr2.color(v)) == _rgb(cr.color(v)) == _rgb(cr3.color(v))):
+                return fail('color_range_copy_differs', _rgb(cr.color(v)), (_rgb(cr2.color(v)), _rgb(cr3.color(v))))
+        # (e) siblings
+        if c['kind'] == 'cat' and c['cc'] and len(c['dom']) == 2 and min(c['dom']) < max(c['dom']):
+            sib = Legend(list(vals), LegendParameters(min(c['dom']), max(c['dom']), None,
+                                                      [Color(*x) for x in c['cols']]))
+            if [_rgb(x) for x in sib.value_colors] != [_rgb(x) for x in lg.value_colors]:
+                return fail('sibling_categorised_plain', [_rgb(x) for x in sib.value_colors],
+                            [_rgb(x) for x in lg.value_colors])
+        if cells < 1:
+            return None
+        # (g) mesh extents
+        sh, sw = float(par.segment_height), float(par.segment_width)
+        m = lg.segment_mesh_scene_2d
+        xs, ys = [p.x for p in m.vertices], [p.y for p in m.vertices]
+        want = (0.0, sw, 0.0, cells * sh) if par.vertical else (-sw * cells, 0.0, 0.0, sh)
+        got = (min(xs), max(xs), min(ys), max(ys))
+        tol = 1e-9 * max(1.0, max(abs(x) for x in want))
+        if any(abs(g - w) > tol for g, w in zip(got, want)):
+            return fail('mesh_extent', want, got)
+        m3 = lg.segment_mesh
+        if len(m3.vertices) != len(m.vertices) or len(m3.faces) != cells:
+            return fail('mesh_3d_counts', (len(m.vertices), cells), (len(m3.vertices), len(m3.faces)))
+        pts = lg.segment_text_location_scene_2d
+        if len(pts) != n:
+            return fail('text_positions_count', n, len(pts))
+        for i in range(1, n):
+            dx, dy = pts[i].x - pts[i - 1].x, pts[i].y - pts[i - 1].y
+            w = (0.0, sh) if par.vertical else (sw, 0.0)
+            if abs(dx - w[0]) > tol * 10 or abs(dy - w[1]) > tol * 10:
+                return fail('text_positions_step', w, (dx, dy), index=i)
+        if not par.vertical and abs(pts[0].x - min(xs)) > tol * 10:
+            return fail('text_positions_start', min(xs), pts[0].x)
+        # (j) screen space: one label position per segment, evenly spaced, in all four branches
+        W, H = inp.get('screen', (800, 600))
+        sp = lg.segment_text_location_2d(W, H)
+        if len(sp) != n:
+            return fail('screen_positions_count', n, len(sp))
+        psh, psw = _px(par.segment_height_2d, H), _px(par.segment_width_2d, W)
+        for i in range(1, n):
+            dx, dy = sp[i].x - sp[i - 1].x, sp[i].y - sp[i - 1].y
+            w = (0, -psh) if par.vertical else (psw, 0)
+            if (dx, dy) != w:
+                return fail('screen_positions_step', w, (dx, dy), index=i)
+        # (j) colour map: bands / gradient between black borders
+        if psh < 1 or psw < 1:
+            return None
+        scol = [_rgb(x) for x in lg.segment_colors]
+        black = (0, 0, 0)
+        if par.continuous_legend and not lg.segment_numbers[0] < lg.segment_numbers[-1]:
+            return None                              # zero-width gradient: nothing to sample
+        mp = lg.color_map_2d(W, H)
+        rows = [[_rgb(x) for x in row] for row in mp]
+        if any(x != black for x in rows[0]) or any(x != black for x in rows[-1]):
+            return fail('color_map_border', 'black first and last row', (rows[0][:3], rows[-1][:3]))
+        inner = rows[1:-1]
+        if not par.continuous_legend:
+            if par.vertical:
+                if len(inner) != n * psh or any(len(r) != psw for r in rows):
+                    return fail('color_map_size', (n * psh, psw), (len(inner), len(rows[0])))
+                for j, r in enumerate(inner):
+                    want_c = scol[n - 1 - j // psh]
+                    if psw > 2 and any(x != want_c for x in r[1:-1]):
+                        return fail('color_map_band', want_c, r[1:-1][:3], band=j // psh)
+            else:
+                if len(inner) != psh or any(len(r) != psw * n for r in rows):
+                    return fail('color_map_size', (psh, psw * n), (len(inner), len(rows[0])))
+                for r in inner[:2]:
+                    for j in range(1, psw * n - 1):
+                        if r[j] != scol[j // psw]:
+                            return fail('color_map_band', scol[j // psw], r[j], band=j // psw)
+        else:
+            stn, endn = lg.segment_numbers[0], lg.segment_numbers[-1]
+            total = (psh if par.vertical else psw) * (n - 1)
+            spn = (endn - stn) / total
+            if par.vertical:
+                seq = [r[1] if len(r) > 2 else None for r in reversed(inner)]
+                if not total <= len(seq) <= total + 1 or any(len(r) != psw for r in rows):
+                    return fail('color_map_size', (total, psw), (len(seq), len(rows[0])))
+            else:
+                if len(inner) != psh or any(len(r) != total for r in rows):
+                    return fail('color_map_size', (psh, total), (len(inner), len(rows[0])))
+                seq = [None] + inner[0][1:-1] + [None]
+            if c['kind'] == 'cat' and not (len(c['dom']) == 2 and c['cc']):
+                seq = []        # unevenly spaced stops: the sample positions are float-accumulated, no oracle
+            for j, got_c in enumerate(seq):
+                if got_c is None:
+                    continue
+                want_c = _rgb(cr.color(stn + j * spn))
+                if not cr.continuous_colors:
+                    if got_c not in [_rgb(x) for x in cr.colors]:      # a step function: no tolerance at the steps
+                        return fail('color_map_gradient', 'a colour of the range', got_c, index=j)
+                elif any(abs(g - w) > 1 for g, w in zip(got_c, want_c)):
+                    return fail('color_map_gradient', want_c, got_c, index=j)
+    except Exception as e:
+        return fail('extra_raises', 'the legend answers', 'raises %s: %s' % (type(e).__name__, e),
+                    error=type(e).__name__)
+    return None
+
+
+PX_POOL = [None, None, {'segment_height_2d': '4px', 'segment_width_2d': '3px'},
+           {'segment_height_2d': '2%', 'segment_width_2d': '1.5%', 'text_height_2d': '2.5%'},
+           {'segment_height_2d': '12px', 'segment_width_2d': '1%', 'origin_x': '5%', 'origin_y': '20px'}]
+
+
+def count_branches(ctx, op, c):
+    """Which branches of the anchored functions a generated case reaches (module header: list)."""
+    if op == 'range':
+        ctx.count('branch:domain:' + ('remap_two_values' if c['cont'] and len(c['dom']) == 2 else
+                                      'multi_stop' if c['cont'] else 'segmented'))
+        if len(set(c['dom'])) == 1:
+            ctx.count('branch:color:' + ('fallthrough_single_boundary' if len(c['dom']) == 1 else
+                                         'zero_division_blend' if c['cont'] else 'zero_width_segmented'))
+        ctx.count('branch:color:below+above+interval_%s' % ('blend' if c['cont'] else 'segment'))
+        return
+    cat = c['kind'] == 'cat'
+    ctx.count('branch:text:' + (('cat_names_given' if c.get('names') else 'cat_names_generated') if cat else
+                                'ordinal' if c.get('ord') is not None else
+                                'numeric_marked' if c.get('ils') else 'numeric'))
+    ctx.count('branch:points+mesh:%s_%s' % ('vertical' if c['vert'] else 'horizontal',
+                                            'gradient' if c['cl'] else 'discrete'))
+    ctx.count('branch:color_range:' + ('categorised' if cat else 'plain'))
+    if not cat:
+        if c.get('min') is None:
+            ctx.count('branch:init:min_from_data')
+        if c.get('max') is None:
+            ctx.count('branch:init:max_from_data')
+        if c.get('count') == 1 or (c.get('count') is None and c.get('min') is None and c.get('max') is None
+                                   and len(set(c['vals'])) == 1):
+            ctx.count('branch:numbers:zero_division_single_segment')
+        if not c['vert'] and c.get('sw') is None:
+            ctx.count('branch:init:horizontal_default_width')
+
+
+def _round4_cases(ctx):
+    rng = ctx.rng
+    big = ctx.searching or not ctx.quick
+    for inp in GTYPE_CORPUS:
+        yield 'gtype', inp
+    yield 'shapes', SHAPES_FINDING_INPUT
+    nonkey = 0
+    for _ in range(4000 if big else 700):
+        c = gen_gtype(ctx, rng)
+        c = {k: v for k, v in c.items() if k not in ('exact', '_ud')}
+        if c['kind'] == 'plain' and c['count'] is None and c['ord'] is None and c['dt'][0] in (
+                'builtin', 'generic', 'fromdict') and (c['min'] is not None or c['max'] is not None):
+            ks = BUILTIN_KEYS[c['dt'][1]] if c['dt'][0] == 'builtin' else [k for k, _ in c['dt'][1]]
+            if typed_expect(c, ks) == 'bound_not_a_key':
+                nonkey += 1
+                if nonkey > 6:
+                    continue                 # finding C15-graphic-ordinal-bound-not-a-key: a few per run
+        yield 'gtype', _jsonable(c)
+    for _ in range(1200 if big else 160):
+        n = rng.choice([2, 3, 5, 10])
+        cont = rng.random() < 0.6
+        lo = rng.choice([0.0, 1.0, -3.5, 1e6, 2e-9])
+        dom = [lo, lo + rng.choice([1.0, 9.0, 1e-9, 144.0])]
+        if not cont:
+            dom = sorted(lo + i for i in range(rng.randrange(1, n)))
+        yield 'shapes', {'what': 'range', 'domain_one_shot': rng.random() < 0.03,
+                         'case': {'cols': [list(x) for x in gen_colors(rng, n)], 'dom': dom, 'cont': cont}}
+    for _ in range(1500 if big else 220):
+        c = gen_legend(ctx, rng, True)
+        yield 'shapes', {'what': 'legend', 'case': _jsonable(c)}
+    for i in range(5000 if big else 900):
+        c = gen_legend(ctx, rng, rng.random() < 0.6)
+        if i % 8 == 0:
+            c = gen_legend_defaults(ctx, rng, True)
+        c = _jsonable(c)
+        count_branches(ctx, 'legend', c)
+        c['px'] = rng.choice(PX_POOL)
+        if c['px']:
+            ctx.count('extra:screen_dims_given')
+        if rng.random() < 0.3:
+            c['screen'] = [rng.choice([640, 1024, 333]), rng.choice([480, 768, 211])]
+        yield 'extra', c
+
+
+SHAPES_FINDING_INPUT = {'what': 'range', 'domain_one_shot': True, 'case': {'cols': [[0, 0, 0], [255, 255, 255]], 'dom': [0, 10], 'cont': True}}
+
+
+LEVEL_TEXT = ('Machine-checked Lean 4 theorems (37) over an executable Rat model of ColorRange, Legend and '
               'GraphicContainer: for every colour list, domain and value: stop exactness, every channel between '
               'the neighbouring stop channels, monotone movement in the value (Python round is monotone), '
               'clamping beyond the ends, segmented interval colour, zero-width and one-boundary domains, '
@@ -2585,7 +3430,9 @@ LEVEL_TEXT = ('Machine-checked Lean 4 theorems (31) over an executable Rat model
               'with first = min and last = max, all per-segment lists of length n, mesh cells n / n-1, label '
               'content (round(number, decimals) at token level, < > marks, ordinal dictionary), value colours = '
               'map of the colour range, defaults from the resolved bounds, categorised legends use their own '
-              'domain/colours/names, a GraphicContainer colours like its own legend; object state machines for '
+              'domain/colours/names, a GraphicContainer colours like its own legend; a GraphicContainer with an ordinal '
+              'data type takes the least / greatest key and one segment per key whatever order the dictionary was '
+              'written in (user dictionaries and categorised parameters are kept); object state machines for '
               'histories on one ColorRange / parameters object / legend: a refused operation leaves the state '
               'unchanged, reads are pure and commute, and after ANY history plain parameters equal the object '
               'built in one go from their final public attributes (no hidden state). The model is compared with '
